@@ -757,7 +757,7 @@ theorem ninv_mul (x : Fn) : x ≠ ((0 : ℤ) : Fn) → x⁻¹ * x = ((1 : ℤ) :
   rw [Int.cast_one]
   exact inv_mul_cancel₀ h
 
-/-- `smul_gzero(k)`: `smul(k, gzero()) == gzero()` (`_root_`: `SecpSMT.smul_zero` above is the lemma `0 • g = 0`) -/
+/-- `smul_gzero(k)`: `smul(k, gzero()) == gzero()` (not to be confused with `SecpSMT.smul_zero` above, the lemma `0 • g = 0`) -/
 theorem smul_gzero (k : ℤ) : k • (0 : G) = 0 := zsmul_zero k
 
 end SecpSMT
